@@ -10,7 +10,7 @@ from harness.tlcrun import marker_lines
 from harness.checks.prog import run_chunked
 
 CFG = "INIT Init\nNEXT Next\nINVARIANT Report\nCHECK_DEADLOCK FALSE\n"
-SIZES = {"quick": {"layout": 150, "f1": 60, "f3": 30}, "thorough": {"layout": 2000, "f1": 600, "f3": 200}}
+SIZES = {"quick": {"layout": 150, "f1": 60, "f3": 30}, "thorough": {"layout": 1200, "f1": 400, "f3": 150}}
 FAMILIES = ("layout", "f1", "f3")
 FILTERS = ["-> 2$", "^0 -> 1 ->"]
 CLAUSE_PROP = {"c17": "C17", "c18": "C18"}
